@@ -616,5 +616,60 @@ func uuids(c *vf.Ctx, T lattice) {
 			return fmt.Sprintf("UUIDv1{Time:%d} -> Marshal -> FromBytes -> GetTime() = %s want %s (err=%v panic=%v %s)", p, showT(gt), showI(sec, nsec), err, pn, msg)
 		})
 	}
+	// one generator value re-used (a version-1 generator advances its timestamp and hands out the 16-byte
+	// forms): every identifier handed out earlier must still carry ITS time after all later SetTime/Marshal calls
+	{
+		var ps []uint64
+		for _, p := range T.all {
+			if in60(p) {
+				ps = append(ps, p)
+			}
+		}
+		if len(ps) > 24 {
+			ps = append(append([]uint64{}, ps[:12]...), ps[len(ps)-12:]...)
+		}
+		type gen struct {
+			name    string
+			marshal func(p uint64) ([]byte, error)
+			read    func(b []byte) (time.Time, error)
+		}
+		g1, g2 := &uuid_v1.UUIDv1{}, &uuid_v2.UUIDv2{}
+		gens := []gen{
+			{"uuid_v1", func(p uint64) ([]byte, error) { g1.Time = p; return g1.Marshal() },
+				func(b []byte) (time.Time, error) { w := uuid_v1.UUIDv1{}; err := w.FromBytes(b); return w.GetTime(), err }},
+			{"uuid_v2", func(p uint64) ([]byte, error) { g2.Time = p; return g2.Marshal() },
+				func(b []byte) (time.Time, error) { w := uuid_v2.UUIDv2{}; err := w.FromBytes(b); return w.GetTime(), err }},
+		}
+		for _, g := range gens {
+			g := g
+			mask := uint64(1<<60 - 1)
+			if g.name == "uuid_v2" {
+				mask &^= 1<<32 - 1 // version 2 replaces time_low by the local identifier
+			}
+			var held [][]byte
+			var times []uint64
+			pn, msg, where := vf.Try(func() {
+				for _, p := range ps {
+					b, err := g.marshal(p)
+					if err != nil {
+						continue
+					}
+					held = append(held, b)
+					times = append(times, p)
+				}
+			})
+			for i, b := range held {
+				p := times[i] & mask
+				sec, nsec := rt.TicksToUnix(rt.BU(p), rt.Epoch1582)
+				var gt time.Time
+				var err error
+				p2, _, _ := vf.Try(func() { gt, err = g.read(b) })
+				c.Evals(1)
+				c.Check("C15/"+g.name+"/identifier-handed-out-earlier-keeps-its-time-after-later-Marshal-calls", !pn && !p2 && err == nil && rt.SameInstant(gt, sec, nsec), func() string {
+					return fmt.Sprintf("one %s value: Time set and Marshal called %d times; the identifier returned by call %d (Time=%d) now reads %x and its GetTime() = %s, want %s (err=%v panic=%v %s %s)", g.name, len(held), i+1, times[i], b, showT(gt), showI(sec, nsec), err, pn || p2, msg, where)
+				})
+			}
+		}
+	}
 	c.Sample("uuid", map[string]any{"time_field": "1152921504606846975", "want": "5236-03-31T21:21:00.6846975Z"})
 }
